@@ -342,6 +342,30 @@ func c02Encode(fam string, s gen.Signed, aux int) (entry string, out []byte, dif
 	return "", nil, nil, nil
 }
 
+// rejectClass names why a parser refused x without relying on the error's wording where it can:
+// when x is shorter than the package's exported minimum-size constant AND the same bytes followed by
+// zero padding up to that size are accepted with exactly the padding left over, the size threshold is
+// the only obstacle and the class is "only-because-shorter-than-<CONSTANT>"; otherwise the
+// normalised error text.
+func rejectClass(fam string, x []byte, errText string) string {
+	pad := func(min int) []byte { return append(append([]byte(nil), x...), make([]byte, min-len(x))...) }
+	switch fam {
+	case "LeaseSet2":
+		if len(x) < lease_set2.LEASESET2_MIN_SIZE {
+			if _, rem, err := lease_set2.ReadLeaseSet2(pad(lease_set2.LEASESET2_MIN_SIZE)); err == nil && len(rem) == lease_set2.LEASESET2_MIN_SIZE-len(x) {
+				return "only-because-shorter-than-LEASESET2_MIN_SIZE"
+			}
+		}
+	case "MetaLeaseSet":
+		if len(x) < meta_leaseset.META_LEASESET_MIN_SIZE {
+			if _, rem, err := meta_leaseset.ReadMetaLeaseSet(pad(meta_leaseset.META_LEASESET_MIN_SIZE)); err == nil && len(rem) == meta_leaseset.META_LEASESET_MIN_SIZE-len(x) {
+				return "only-because-shorter-than-META_LEASESET_MIN_SIZE"
+			}
+		}
+	}
+	return errClass(errText)
+}
+
 // errClass normalises an error text into a stable class (digits removed, first clause only).
 func errClass(e string) string {
 	var sb strings.Builder
@@ -387,7 +411,7 @@ func c02One(r *core.Run, fam string, s gen.Signed, aux int, c *choose.Ctx) {
 	if pan {
 		r.Violate("C02|decode|"+fam+"|panic", "parser/accessor panics on a well-formed encoding: "+msg+" ("+c.Describe()+")", cs)
 	} else if !accepted {
-		r.Violate("C02|decode|"+entry+"|rejects-wellformed|"+errClass(errText), fmt.Sprintf("%s rejects a well-formed %s (%s): %s", entry, fam, c.Describe(), errText), cs)
+		r.Violate("C02|decode|"+entry+"|rejects-wellformed|"+rejectClass(fam, s.Bytes, errText), fmt.Sprintf("%s rejects a well-formed %s (%s): %s", entry, fam, c.Describe(), errText), cs)
 	} else {
 		r.Traces.Add(1)
 		if remLen != 0 {
